@@ -276,8 +276,16 @@ func c05FS(ctx context.Context, opts *loader.Options, wdAbs, mainAbs string, dic
 			})
 			entry = res
 			if m, ok := res.(map[string]any); ok {
-				if site, p := m["panic"]; p {
+				if site, p := m["panic"].(string); p {
 					entry = map[string]any{"panic": site}
+					if strings.Contains(site, "relativePathsResolver") {
+						// ResolveRelativePaths panicked: that is after the services / base-present checks
+						stub := map[string]any{}
+						for _, n := range names {
+							stub[n] = map[string]any{}
+						}
+						entry = map[string]any{"ok": core.EncodeVal(map[string]any{"services": stub}), "rpanic": site}
+					}
 				}
 			}
 			table = append(table, []any{ref, entry})
@@ -333,6 +341,11 @@ func c05Norm(out json.RawMessage) json.RawMessage {
 	switch {
 	case m.Err != nil && *m.Err == "cannotOverride", m.Panic != nil && strings.HasPrefix(*m.Panic, "override."):
 		return json.RawMessage(`{"fail":"merge"}`)
+	case m.Err != nil && *m.Err == "loadErr", m.Panic != nil && !strings.HasPrefix(*m.Panic, "loader."):
+		// loading an extended file failed (yaml, interpolation, canonical form, path resolution): with two
+		// malformed attributes in one file, which of them is reported — an error or a panic of a transformer —
+		// depends on Go's map order inside that stage; file loading is the parameter of the extends model
+		return json.RawMessage(`{"fail":"load"}`)
 	case m.Panic != nil:
 		b, _ := json.Marshal(map[string]string{"panic": *m.Panic})
 		return b
